@@ -81,12 +81,12 @@ inductive Member
 
 structure Class where
   members : List (Name × Member)         -- own __dict__
-  deriving Repr
+  deriving DecidableEq, Repr
 
 structure Shape where
   mro : List Class                       -- type(obj).__mro__ without `object`, most derived first
   inst : List (Name × Val)               -- obj.__dict__
-  deriving Repr
+  deriving DecidableEq, Repr
 
 /-! ### declarations and the decorators -/
 
@@ -108,7 +108,7 @@ inductive MemberDecl
 structure ClassDecl where
   exposeClass : Bool                     -- @expose on the class
   members : List (Name × MemberDecl)
-  deriving Repr
+  deriving DecidableEq, Repr
 
 /-- server.py:65-70 oneway, 88-98 + 119 expose on a function: refuses a private `__name__` -/
 def buildFn (d : FnDecl) : Except Err Fn :=
@@ -219,24 +219,26 @@ inductive Obj
   | val (v : Val)
   deriving DecidableEq, Repr
 
+/-- instance `__dict__` entry if there is one, else what the type provides (non-data descriptors and
+    plain class attributes come after the instance dict) -/
+def instOr (sh : Shape) (n : Name) (fromType : Obj) : Except Err Obj × List Nat :=
+  match find? n sh.inst with
+  | some v => (.ok (.val v), [])
+  | none => (.ok fromType, [])
+
 /-- `getattr(obj, n)` on the instance, with the effect of evaluating a property -/
 def getattrInst (sh : Shape) (n : Name) : Except Err Obj × List Nat :=
   match lookupType n sh.mro with
-  | some (.prop g _ _) =>
-    match g with
-    | some f => (.ok (.val .data), [f.fid])        -- the getter RUNS
-    | none => (.error .attr, [])                   -- property has no getter
-  | tm =>
+  | some (.prop (some f) _ _) => (.ok (.val .data), [f.fid])   -- data descriptor first: the getter RUNS
+  | some (.prop none _ _) => (.error .attr, [])                -- property has no getter
+  | some (.func f) => instOr sh n (.fn f)
+  | some (.static f) => instOr sh n (.fn f)
+  | some (.clsm f) => instOr sh n (.fn f)
+  | some (.attr v) => instOr sh n (.val v)
+  | none =>
     match find? n sh.inst with
     | some v => (.ok (.val v), [])
-    | none =>
-      match tm with
-      | some (.func f) => (.ok (.fn f), [])
-      | some (.static f) => (.ok (.fn f), [])
-      | some (.clsm f) => (.ok (.fn f), [])
-      | some (.attr v) => (.ok (.val v), [])
-      | some (.prop _ _ _) => (.error .attr, [])   -- (not reachable: handled above)
-      | none => (.error .attr, [])
+    | none => (.error .attr, [])
 
 /-- `inspect.isdatadescriptor(getattr(obj.__class__, n, None))` -/
 def isDataDesc : Option Member → Bool
